@@ -70,7 +70,7 @@ ENGINES = {
                    # code under test become scheduler yield points (no ASan in this variant)
                    variant_build={"atomics": dict(san="-fsanitize=thread,undefined", ld_san="-fsanitize=undefined",
                                                   extra=["sim/logsim/atomics_rt.cpp"])},
-                   variant_weight={"atomics": 0.6}, variant_recycle={"atomics": 1200}, spin_fallback="atomics",
+                   variant_weight={"atomics": 1.0}, variant_recycle={"atomics": 1200}, spin_fallback="atomics",
                    probes=[("LS_MIN_AFTER_HEADER", "sim/logsim/probe_min_after_header.cpp"),
                            ("LS_HAVE_CALLABLE_LIT", "sim/logsim/probe_callable_lit.cpp"),
                            ("LS_HAVE_CALLABLE_FN", "sim/logsim/probe_callable_fn.cpp"),
